@@ -4,15 +4,41 @@ import itertools
 
 import numpy as np
 
+import os
+
+from harness import common, pyast_np, pyast_sync
 from harness.common import (cf, cflist, cnat, cpairs_nat, differential, hexf, unhex)
 
 ID = "C05"
-IMPORTS = "From Evo Require Import Num Sync.\n"
-COQ_TARGETS = ["theories/SyncProofs.vo"]
-TRUSTED = ["model Evo.Sync written by hand from evo/core/sync.py; tie = differential run (bit-exact)",
+IMPORTS = "From Evo Require Import Num Sync NpDsl.\nFrom EvoGen Require Import SyncGen.\n"
+COQ_TARGETS = ["theories/SyncProofs.vo", "theories/SyncTie.vo", "generated/SyncGen.vo"]
+GEN_PATH = os.path.join(common.COQ, "generated", "SyncGen.v")
+GEN_STATE = {"translated": True}
+TRUSTED = ["model Evo.Sync written by hand from evo/core/sync.py; ties: (T) harness/pyast_sync.py re-translates matching_time_indices "
+           "from the current source into EvoGen.SyncGen on every run (arrays as lists, the best_matches dict as an insertion-ordered "
+           "association list, sorted() on int pairs as a lexicographic sort; typed, fail-closed) and Evo.SyncTie proves the translated "
+           "function equal to the model (the loop for every number system, the final sort over R using the loop invariant); "
+           "(H) differential run (bit-exact) of the model AND of the translated function",
            "numpy elementwise +,-,abs,argmin assumed IEEE-754 binary64 / first-minimum (measured on every case)",
            "PoseTrajectory3D.reduce_to_ids is exercised, not modelled beyond 'select by index'"]
 ASSUMPTIONS = ["timestamps finite (no NaN/inf); strictly increasing where the statement asks for time order"]
+
+
+def regenerate(ctx):
+    """translator tie: coq/generated/SyncGen.v from the repository under test (fail-closed)"""
+    try:
+        text = pyast_sync.translate_sync(common.REPO)
+        GEN_STATE["translated"] = True
+        if pyast_np.write_if_changed(GEN_PATH, text):
+            ctx.notes.append("coq/generated/SyncGen.v regenerated from %s (content changed)" % common.REPO)
+        return []
+    except (pyast_np.Unsupported, OSError, SyntaxError, KeyError, IndexError, AttributeError, TypeError) as e:
+        GEN_STATE["translated"] = False
+        pyast_np.write_if_changed(GEN_PATH, pyast_sync.stub())
+        return [{"kind": "obligation", "failing_input": False, "theorem": "Evo.SyncTie.matching_time_indices_gen_is_model (translator tie)",
+                 "correspondence": "pyast_sync: evo/core/sync.py matching_time_indices",
+                 "detail": "translation of the repository under test failed (fail-closed): %s: %s" % (type(e).__name__, e),
+                 "case": None, "model_output": None, "impl_output": None}]
 
 
 # ------------------------------------------------------------------ implementation side
@@ -89,7 +115,10 @@ def expr(case, out):
         spec = "true"
         if small and "pairs" in out:
             spec = "match_spec_b %s %s %s %s %s" % (s1, s2, maxd, off, cpairs_nat(out["pairs"]))
-        return "(matching %s %s %s %s, %s)" % (s1, s2, maxd, off, spec)
+        gen = "tt"
+        if small and GEN_STATE["translated"]:
+            gen = "matching_time_indices_gen %s %s %s %s" % (s1, s2, maxd, off)
+        return "(matching %s %s %s %s, %s, %s)" % (s1, s2, maxd, off, spec, gen)
     spec = "true"
     if small and "r1" in out and out.get("poses_intact"):
         snd_longer = len(case["s2"]) > len(case["s1"])
@@ -103,6 +132,22 @@ def expr(case, out):
 
 
 def judge(case, val, out):
+    gen = None
+    if len(val) == 3:
+        model, spec_ok, gen = val
+    else:
+        model, spec_ok = val
+    f = judge_main(case, (model, spec_ok), out)
+    if f is None and gen is not None and not isinstance(gen, str) and gen != () and "pairs" in out:
+        g1, g2 = gen
+        if [tuple(p) for p in out["pairs"]] != list(zip([int(a) for a in g1], [int(b) for b in g2])):
+            return {"kind": "model-vs-impl", "failing_input": False,
+                    "correspondence": "EvoGen.SyncGen.matching_time_indices_gen (translated source) vs implementation",
+                    "detail": "index lists differ from the translated source run in binary64"}
+    return f
+
+
+def judge_main(case, val, out):
     model, spec_ok = val
     if out.get("error") not in (None, "SyncException"):
         return {"kind": "spec-violation", "failing_input": True, "detail": "unexpected exception " + out["error"]}
@@ -252,6 +297,11 @@ def random_cases(ctx):
 
 
 def run(ctx, replay=None, proofs_ok=True):
+    if not proofs_ok:   # the case files only need the executable model and the translated function
+        common.build_theories(targets=["theories/Sync.vo", "theories/NpDsl.vo", "generated/SyncGen.vo"])
+    if replay is not None and not replay.get("case"):
+        return {"failures": [], "coverage": {"evaluations": 0, "distinct_nontrivial": 0, "rule": "replay of an obligation "
+                "(no input case): the theorems were re-checked by the driver", "samples": []}}
     if replay is not None:
         cases = [replay["case"]]
     else:
@@ -279,4 +329,4 @@ LEVEL_TEXT = ("Machine-checked theorems (Coq) over an executable model of matchi
               "small grid plus random vectors; a proven boolean checker classifies any disagreement.")
 LEVEL_NOTE = ("Trusted: Coq kernel/VM, Reals axioms + classic (stdlib), the hand-written model's correspondence (tested, not "
               "proved), numpy's IEEE semantics. Theorems are over R; the float run is bit-exact with numpy.")
-TECHNIQUE = "Coq proof (list induction, loop invariant) + bit-exact model/implementation correspondence by vm_compute"
+TECHNIQUE = "Coq proof (list induction, loop invariant) + Python-AST translator of matching_time_indices with translated = model proved + bit-exact model/implementation correspondence by vm_compute"
